@@ -794,6 +794,15 @@ impl Xot {
                         content,
                         span: _,
                     } => {
+                        // the target "xml" (in any case) is reserved; the
+                        // tokenizer lets it through inside fragments
+                        if target.as_str().eq_ignore_ascii_case("xml") {
+                            let text_pos = tokenizer.stream().gen_text_pos_from(target.start());
+                            return Err(ParseError::XmlParser(
+                                xmlparser::Error::UnknownToken(text_pos),
+                                target.start(),
+                            ));
+                        }
                         let node_id = builder.processing_instruction(
                             target.as_str(),
                             content.map(|s| s.as_str()),
